@@ -180,6 +180,95 @@ def run_frontier(chk, F):
     chk.expect_count('E2-frontier', 'cumulated-sum loops in the diamond', n, 1)
 
 
+def run_first_value(chk, F):
+    """E8-first-value: the storage front-end translates arrow numbers into filtration values by a lookup that steps
+    back to the previous recorded (arrow, value) pair: it is safe only if the first arrow is always recorded. The
+    recording guard of `_store_filtration_value` is evaluated on the valuations of its atoms with "nothing recorded
+    yet" true: on every one of them the path must append (a guard that only compares with the previous value skips a
+    first value equal to the initial `previousFiltrationValue_`, e.g. +infinity)."""
+    fs = [f for f in F.functions if f['name'] == '_store_filtration_value' and f.get('inst') in (0, 2) and
+          f.get('body') is not None]
+    if len(fs) != 1:
+        raise AnalysisBroken('C07: _store_filtration_value not found')
+    f = fs[0]
+
+    def cl(x):
+        if ir.is_call(x) and ir.call_name(x) in ('emplace_back', 'push_back') and \
+                'filtrationValues_' in ir.show(ir.call_receiver(x) or {}):
+            return ['APPEND']
+        return []
+    ps = paths.enumerate_paths(f, cl, loop_mode='01', keep_conds=True)
+    if not any('APPEND' in p.tags() for p in ps):
+        raise AnalysisBroken('C07: _store_filtration_value no longer records anything')
+    atoms = {}
+    linits = {x['n']: x['init'] for x in ir.walk(f['body']) if x.get('k') == 'VarDecl' and x.get('init') is not None
+              and (x.get('t') or '').replace('const ', '') == 'bool'}
+    bad = None
+    for p in ps:
+        if p.end == 'throw' or 'APPEND' in p.tags():
+            continue
+        decisions = [(c, pol) for c, pol, _ in p.conds if not isinstance(c, tuple)]
+        fs_ = [(findrule._formula(c, atoms, linits), pol) for c, pol in decisions]
+        empties = [i for t, i in atoms.items() if t.replace('()', '').endswith('filtrationValues_.empty')
+                   or 'filtrationValues_.size()==0' in t]
+        n = len(atoms)
+        for m in range(1 << n):
+            val = [(m >> i) & 1 == 1 for i in range(n)]
+            if not all(findrule._ev(fm, val) == pol for fm, pol in fs_):
+                continue
+            # a path that does not append is acceptable only if it knows that something is recorded already
+            if not empties or all(val[i] for i in empties):
+                bad = p
+                break
+        if bad is not None:
+            break
+    chk.ob('E8-first-value', '_store_filtration_value records the value of the first arrow whatever it is',
+           '%s:%d' % (rel(f['file']), f['line']), bad is None, '' if bad is None else
+           'a path [%s] returns without recording although nothing may be recorded yet: a first value equal to the '
+           'initial previousFiltrationValue_ (+infinity) is skipped and get_filtration_value_from_index steps back '
+           'before the first pair' % '; '.join(('' if pol else '!') + ir.show(c)[:60] for c, pol, _ in bad.conds
+                                                if not isinstance(c, tuple)), key='E8|_store_filtration_value|first-value')
+
+
+def run_slot_order(chk, F):
+    """E11-slot-order: a column index of the chain matrix (Matrix_index) names a storage slot - vine swaps exchange the
+    pivots of two slots, so the order of the slots says nothing about the order of the cells. Every lambda of
+    Zigzag_persistence whose parameters are all column indices (the comparators handed to the matrix, the sort of the
+    columns crossed by a removal) orders them through values looked up with them (pivot, birth), never by comparing
+    the indices themselves."""
+    n = 0
+    for f in F.functions:
+        if f.get('clsname') != 'Zigzag_persistence' or f.get('inst') not in (0, 2):
+            continue
+        roots = [f.get('body')] + [i.get('init') for i in (f.get('inits') or []) if isinstance(i, dict)]
+        for r in roots:
+            if r is None:
+                continue
+            for lam in ir.walk(r):
+                if lam.get('k') != 'LambdaExpr':
+                    continue
+                ps = lam.get('params', [])
+                if len(ps) != 2 or not all((p_.get('t') or '').replace('const ', '').replace('&', '').strip().split(
+                        '::')[-1] == 'Matrix_index' for p_ in ps):
+                    continue
+                n += 1
+                names = {p_['n'] for p_ in ps}
+                bad = None
+                for x in ir.walk(lam.get('body')):
+                    if x.get('k') in ('BinaryOperator', 'CXXOperatorCallExpr') and x.get('op') in ('<', '>', '<=', '>='):
+                        ab = x['c'] if x['k'] == 'BinaryOperator' else ir.call_args(x)
+                        for y in ab:
+                            y0 = ir.skipcasts(y)
+                            if y0 is not None and y0.get('k') == 'DeclRefExpr' and y0.get('n') in names:
+                                bad = x
+                chk.ob('E11-slot-order', '%s: the comparator at line %s orders its columns by values looked up with '
+                       'their indices' % (f['name'], lam.get('l')), '%s:%s' % (rel(f['file']), lam.get('l')),
+                       bad is None, '' if bad is None else '`%s` compares the column indices themselves: after a vine '
+                       'swap exchanged the pivots of two slots the order of the slots is not the order of the cells'
+                       % ir.show(bad)[:70], key='E11|Zigzag_persistence::%s|slot-order|%d' % (f['name'], n))
+    chk.expect_count('E11-slot-order', 'comparators over column indices', n, 3)
+
+
 def run(tier, replay=None):
     chk = Check('C07', tier,
                 'Static decision of one bookkeeping clause of zigzag persistence: on every path of the forward arrow, '
@@ -254,6 +343,8 @@ def run(tier, replay=None):
     # is kept (rule shared with C05)
     from rules import c05
     c05.run_dimension_overwrite(chk, F, min_count=1)
+    run_slot_order(chk, F)
+    run_first_value(chk, F)
     findrule.run(chk, F, ('zigzag_persistence.h', 'filtered_zigzag_persistence.h'), {
         'Zigzag_persistence::_process_backward_arrow|births_':
             'every chain of F (unpaired column) has an entry in births_: the creation / registration lock-step rule '
